@@ -90,7 +90,7 @@ func propBalances(t *rapid.T) {
 		MeltingSettings: mint.MeltMethodSettings{MaxAmount: rapid.SampledFrom([]uint64{0, 0, 1, 50, 300}).Draw(t, "melt_max")},
 	}
 	m := hist.Run(t, cfg, hist.Options{
-		Weights:   hist.Weights(map[string]int{"mintquote_boundary": 6, "meltquote_boundary": 3, "swap_adv": 1, "restart": 1, "rotate": 1, "melt": 5, "meltquote": 3, "checkstate": 0, "deliver": 0, "pollmint": 0}),
+		Weights:   hist.Weights(map[string]int{"mintquote_boundary": 6, "overlap_quotes": 2, "meltquote_boundary": 3, "swap_adv": 1, "restart": 1, "rotate": 1, "melt": 5, "meltquote": 3, "checkstate": 0, "deliver": 0, "pollmint": 0}),
 		Owns:      []string{"C16"},
 		PropID:    "C16",
 		AfterStep: func(m *hist.Machine, op string) { balancesExact(m, op); m.Enforce(op) },
@@ -98,7 +98,7 @@ func propBalances(t *rapid.T) {
 	if m.Count["boundary_request"] > 0 || m.Count["balance_after_fee_swap_and_melt"] > 0 {
 		rec.NonTrivial(fmt.Sprintf("%+v|%s", cfg.Limits, strings.Join(m.Trace, "|")))
 		rec.ClassN("boundary_requests", m.Count["boundary_request"])
-		for _, k := range []string{"info_disabled_true", "balance_after_fee_swap_and_melt", "rotation", "restart"} {
+		for _, k := range []string{"info_disabled_true", "balance_above_maximum", "balance_after_fee_swap_and_melt", "rotation", "restart"} {
 			if m.Count[k] > 0 {
 				rec.Class("history_with_" + k)
 			}
